@@ -13,6 +13,8 @@ import time
 from .lean import VERIF, LEAN_DIR, MachineryError, ensure_built
 
 REPO = os.environ.get("VERIF_REPO", "/repo")
+# where evidence/ and replays/ are written (tools/seeded_matrix.sh points it at a scratch directory)
+OUT = os.environ.get("VERIF_OUT", VERIF)
 ALLOWED_AXIOMS = {"propext", "Classical.choice", "Quot.sound"}
 FORBIDDEN = re.compile(r"\b(sorry|admit|native_decide|bv_decide|implemented_by|unsafe)\b|^\s*axiom\s|maxHeartbeats\s+0\b",
                        re.M)
@@ -42,12 +44,12 @@ def lean_sources():
         if ".lake" in root:
             continue
         for f in files:
-            if f.endswith(".lean"):
+            if f.endswith(".lean") and not (root == LEAN_DIR and f.startswith("audit-tmp-")):   # another run's transient audit file, not part of the library
                 out.append(os.path.join(root, f))
     return sorted(out)
 
 
-EXTRA_PROPS = {"C04": ["C04Par"]}
+EXTRA_PROPS = {"C04": ["C04Par"], "C09": ["C09Hist"]}
 
 
 def audit(pid):
@@ -69,7 +71,7 @@ def audit(pid):
         s = strip_comments(open(f).read())
         for m in FORBIDDEN.finditer(s):
             bad_kw.append("%s: %s" % (os.path.relpath(f, LEAN_DIR), m.group(0).strip()))
-    with tempfile.NamedTemporaryFile("w", suffix=".lean", dir=LEAN_DIR, delete=False) as tf:
+    with tempfile.NamedTemporaryFile("w", prefix="audit-tmp-", suffix=".lean", dir=LEAN_DIR, delete=False) as tf:
         for mod in sorted({m for m, _ in names}):
             tf.write("import TrashVerif.Props.%s\n" % mod)
         for mod, n in names:
@@ -166,7 +168,7 @@ class Check:
 
     # -- finish ------------------------------------------------------------------------------
     def finish(self, audit_info, level_note, rule, theorems_resting=None, assumptions=()):
-        os.makedirs(os.path.join(VERIF, "replays", self.pid), exist_ok=True)
+        os.makedirs(os.path.join(OUT, "replays", self.pid), exist_ok=True)
         lines = []
         nviol = 0
         for f in self.known_hits.values():
@@ -218,8 +220,8 @@ class Check:
         ev["coverage"].update(self.extra)
         if self.notes:
             ev["coverage"]["notes"] = self.notes
-        os.makedirs(os.path.join(VERIF, "evidence"), exist_ok=True)
-        with open(os.path.join(VERIF, "evidence", self.pid + ".json"), "w") as f:
+        os.makedirs(os.path.join(OUT, "evidence"), exist_ok=True)
+        with open(os.path.join(OUT, "evidence", self.pid + ".json"), "w") as f:
             json.dump(ev, f, indent=1, sort_keys=True, default=repr)
             f.write("\n")
         for l in lines:
@@ -234,6 +236,6 @@ class Check:
         blob = json.dumps(obj, indent=1, sort_keys=True, default=repr)
         h = hashlib.sha1(blob.encode()).hexdigest()[:12]
         rel = os.path.join("replays", self.pid, h + ".json")
-        with open(os.path.join(VERIF, rel), "w") as f:
+        with open(os.path.join(OUT, rel), "w") as f:
             f.write(blob + "\n")
         return rel
